@@ -13,7 +13,7 @@ typedef struct block_s {
     struct block_s *next;	/* next block in the hash chain */
     /* these two must be last */
     unsigned short size;	/* length of the string */
-    unsigned short refs;	/* reference count    */
+    unsigned int refs;		/* reference count (32 bits, like every other reference count) */
 } block_t;
 
 /**
@@ -29,7 +29,7 @@ typedef struct block_s {
 typedef struct malloc_block_s {
     block_t* unused;		/* to force MSTR_BLOCK align with block_t */
     unsigned short size;
-    unsigned short ref;
+    unsigned int ref;		/* must mirror block_t.refs */
 } malloc_block_t;
 
 #define MSTR_BLOCK(x) (((malloc_block_t *)(x)) - 1) 
@@ -76,8 +76,8 @@ typedef struct malloc_block_s {
    string */
 #define COUNTED_REF(x)    MSTR_REF(x)
 
-/* ref == 0 means the string has been referenced USHRT_MAX times and is
-   immortal */
+/* ref == 0 means the reference count has overflown (UINT_MAX references) and
+   the string is immortal */
 #define INC_COUNTED_REF(x) if (MSTR_REF(x)) MSTR_REF(x)++;
 /* This is a conditional expression that evaluates to zero if the block
    should be deallocated */
